@@ -1422,7 +1422,11 @@ def quantified_formula_might_match(
         )
 
     if qfd_nonterminal == node.value:
-        return qfd_formula.bind_expression is not None
+        # Without a match expression, `node` itself is a match already; but expanding
+        # it adds further matches if the quantified nonterminal is recursive.
+        return qfd_formula.bind_expression is not None or reachable(
+            node.value, qfd_nonterminal
+        )
 
     if qfd_nonterminal != node.value and (
         node.value == qfd_nonterminal or reachable(node.value, qfd_nonterminal)
